@@ -118,6 +118,7 @@ func lossyConv(c *Ctx, prop string) {
 						continue
 					}
 					haveLo, haveHi := !needLo, !needHi
+					tooStrict := ""
 					for _, f := range an.Facts(cv) {
 						x, y, op := f.X, f.Y, f.Op
 						if x == nil || y == nil {
@@ -144,22 +145,38 @@ func lossyConv(c *Ctx, prop string) {
 						case token.GEQ:
 							if k.Cmp(dlo) >= 0 {
 								haveLo = true
+								if needLo && k.Cmp(dlo) > 0 {
+									tooStrict = "lower bound " + k.String() + " excludes representable values down to " + dlo.String()
+								}
 							}
 						case token.GTR:
-							if new(big.Int).Add(k, big.NewInt(1)).Cmp(dlo) >= 0 {
+							if kk := new(big.Int).Add(k, big.NewInt(1)); kk.Cmp(dlo) >= 0 {
 								haveLo = true
+								if needLo && kk.Cmp(dlo) > 0 {
+									tooStrict = "lower bound " + kk.String() + " excludes representable values down to " + dlo.String()
+								}
 							}
 						case token.LEQ:
 							if k.Cmp(dhi) <= 0 {
 								haveHi = true
+								if needHi && k.Cmp(dhi) < 0 {
+									tooStrict = "upper bound " + k.String() + " excludes representable values up to " + dhi.String()
+								}
 							}
 						case token.LSS:
-							if new(big.Int).Sub(k, big.NewInt(1)).Cmp(dhi) <= 0 {
+							if kk := new(big.Int).Sub(k, big.NewInt(1)); kk.Cmp(dhi) <= 0 {
 								haveHi = true
+								if needHi && kk.Cmp(dhi) < 0 {
+									tooStrict = "upper bound " + kk.String() + " excludes representable values up to " + dhi.String()
+								}
 							}
 						}
 					}
-					c.R.Check(haveLo && haveHi, key, w.pos(cv), "range-tested before the conversion",
+					if haveLo && haveHi && tooStrict != "" {
+						c.R.Bad(key, w.pos(cv), "the range test before the conversion is stricter than "+cv.Type().String()+"'s range ("+tooStrict+"): a valid input is rejected instead of being delivered")
+						continue
+					}
+					c.R.Check(haveLo && haveHi, key, w.pos(cv), "range-tested before the conversion (bounds exact)",
 						sprintf("lossy integer conversion without a dominating range test (lower bound needed=%v present=%v, upper bound needed=%v present=%v): an input outside %s's range is silently changed into a different number", needLo, haveLo, needHi, haveHi, cv.Type().String()))
 				}
 			}
